@@ -281,7 +281,9 @@ func (a *An) c18Resend() {
 			R.Check(ok, rule, fmt.Sprintf("maybeRetransmit|after-accepted#%d", i+1), "queued texts are released only after a Reveal-Signature/Signature handler accepted its message", a.C.InstrPos(cs), "reachable without a successful handler")
 		}
 		if c := a.uniqueCall(rule, mr, "(*Conversation).retransmit"); c != nil {
-			a.GateLocal(rule, "maybeRetransmit|guard", c, "retransmission", "ok:(*Conversation).shouldRetransmit")
+			fs := a.F.LocalAt(c)
+			R.Check(fs.Has("ok:(*resendContext).shouldRetransmit") || fs.Has("ok:(*Conversation).shouldRetransmit"), rule, "maybeRetransmit|guard", "retransmission only when the resend context says so (texts waiting, retransmission armed)", a.C.InstrPos(c),
+				"retransmit is called without the shouldRetransmit test having succeeded")
 		}
 	}
 	if sr := a.MustFn("(*resendContext).shouldRetransmit"); sr != nil {
